@@ -8,8 +8,8 @@ def Inv (s : St) : Prop :=
 
 theorem inv_init : Inv init := by simp [Inv, init]
 
-theorem inv_step (st : Bool) (s : St) (o : Op) (h : Inv s) : Inv (step true st s o) := by
-  obtain ⟨cur, next, pending, resp, wire, del, aw, cl, fp⟩ := s
+theorem inv_step (st : Bool) (s : St) (o : Op) (h : Inv s) : Inv (step true st true s o) := by
+  obtain ⟨cur, next, pending, resp, wire, del, aw, cl, fp, qd, eo, ed⟩ := s
   obtain ⟨h1, h2⟩ := h
   cases cl
   · cases o <;> simp only [step, Bool.false_eq_true, if_false, if_true] <;> (repeat' split) <;>
@@ -18,8 +18,8 @@ theorem inv_step (st : Bool) (s : St) (o : Op) (h : Inv s) : Inv (step true st s
       | (simp_all [Inv])
   · simp only [step, if_true]; exact ⟨h1, h2⟩
 
-theorem inv_run (st : Bool) (ops : List Op) : Inv (run true st ops) := by
-  have : ∀ s, Inv s → Inv (ops.foldl (step true st) s) := by
+theorem inv_run (st : Bool) (ops : List Op) : Inv (run true st true ops) := by
+  have : ∀ s, Inv s → Inv (ops.foldl (step true st true) s) := by
     induction ops with
     | nil => intro s h; simpa
     | cons o os ih => intro s h; exact ih _ (inv_step st s o h)
@@ -32,8 +32,8 @@ def Inv2 (s : St) : Prop :=
 
 theorem inv2_init : Inv2 init := by simp [Inv2, init]
 
-theorem inv2_step (s : St) (o : Op) (h : Inv2 s) : Inv2 (step true true s o) := by
-  obtain ⟨cur, next, pending, resp, wire, del, aw, cl, fp⟩ := s
+theorem inv2_step (s : St) (o : Op) (h : Inv2 s) : Inv2 (step true true true s o) := by
+  obtain ⟨cur, next, pending, resp, wire, del, aw, cl, fp, qd, eo, ed⟩ := s
   cases cl
   · cases o <;> simp only [step, Bool.false_eq_true, if_false, if_true] <;> (repeat' split) <;>
       first
@@ -42,11 +42,43 @@ theorem inv2_step (s : St) (o : Op) (h : Inv2 s) : Inv2 (step true true s o) := 
       | (cases cur <;> cases next <;> cases aw <;> simp_all [Inv2])
   · simp only [step, if_true]; exact h
 
-theorem inv2_run (ops : List Op) : Inv2 (run true true ops) := by
-  have : ∀ s, Inv2 s → Inv2 (ops.foldl (step true true) s) := by
+theorem inv2_run (ops : List Op) : Inv2 (run true true true ops) := by
+  have : ∀ s, Inv2 s → Inv2 (ops.foldl (step true true true) s) := by
     induction ops with
     | nil => intro s h; simpa
     | cons o os ih => intro s h; exact ih _ (inv2_step s o h)
   exact this init inv2_init
+
+/-- invariant of the event queue (F31 repair): no event is ever written between a request and its response -/
+def Inv3 (s : St) : Prop := s.evDuring = false
+
+theorem inv3_step (st : Bool) (s : St) (o : Op) (h : Inv3 s) : Inv3 (step true st true s o) := by
+  obtain ⟨cur, next, pending, resp, wire, del, aw, cl, fp, qd, eo, ed⟩ := s
+  cases cl
+  · cases o <;> simp only [step, Bool.false_eq_true, if_false, if_true] <;> (repeat' split) <;> exact h
+  · simp only [step, if_true]; exact h
+
+theorem inv3_run (st : Bool) (ops : List Op) : Inv3 (run true st true ops) := by
+  have : ∀ s, Inv3 s → Inv3 (ops.foldl (step true st true) s) := by
+    induction ops with
+    | nil => intro s h; simpa
+    | cons o os ih => intro s h; exact ih _ (inv3_step st s o h)
+  exact this init rfl
+
+/-- once the answer is out (and the connection is open) nothing is kept back any more -/
+def Inv4 (s : St) : Prop := s.awaiting = false → s.closed = false → s.queued = 0
+
+theorem inv4_step (st : Bool) (s : St) (o : Op) (h : Inv4 s) : Inv4 (step true st true s o) := by
+  obtain ⟨cur, next, pending, resp, wire, del, aw, cl, fp, qd, eo, ed⟩ := s
+  cases cl
+  · cases o <;> simp only [step, Bool.false_eq_true, if_false, if_true] <;> (repeat' split) <;> simp_all [Inv4]
+  · simp only [step, if_true]; exact h
+
+theorem inv4_run (st : Bool) (ops : List Op) : Inv4 (run true st true ops) := by
+  have : ∀ s, Inv4 s → Inv4 (ops.foldl (step true st true) s) := by
+    induction ops with
+    | nil => intro s h; simpa
+    | cons o os ih => intro s h; exact ih _ (inv4_step st s o h)
+  exact this init (by simp [Inv4, init])
 
 end Hc.Handover
